@@ -196,6 +196,11 @@ def _run_check(prop, tier, plan, base_seed, njobs, repo, scratch, t0):
                     per.setdefault(r["index"], {})[j.cfg["plan_name"]] = (r["tape"], r["sched"], r["outcome"])
         for idx, d in sorted(per.items()):
             if name_a in d and name_b in d:
+                if str(d[name_a][2]).startswith("V:") or str(d[name_b][2]).startswith("V:"):
+                    # a run that ended in a violation stops where the library misbehaved; when the misbehaviour is
+                    # itself non-reproducible (the ARPACK known finding) the two runs stop at different draws.
+                    # Violations are triaged on their own (replayed in a fresh interpreter); not compared here.
+                    continue
                 det_compared += 1
                 if d[name_a] != d[name_b]:
                     harness_problems.append(f"determinism sample: {name_a} index {idx} diverged between two processes / hash seeds: "
